@@ -76,6 +76,22 @@ func (e *Exec) newError(msg string) IfaceV {
 
 func (e *Exec) strArg(v Value) StrV { return v.(StrV) }
 
+// resolveStr removes top-level conditionals from a string term by deciding
+// their conditions on this path; constant results become character-level strings.
+func (e *Exec) resolveStr(s StrV) StrV {
+	for !s.IsCh && s.T.Op == "ite" {
+		if e.decide(s.T.Args[0]) {
+			s = StrV{T: s.T.Args[1]}
+		} else {
+			s = StrV{T: s.T.Args[2]}
+		}
+	}
+	if !s.IsCh && s.T.Op == "sconst" {
+		return chStr(e.tf, s.T.S)
+	}
+	return s
+}
+
 func isSpaceTerm(tf *TF, c *Term) *Term {
 	return tf.Or(tf.Eq(c, tf.Int(32)), tf.And(tf.Le(tf.Int(9), c), tf.Le(c, tf.Int(13))))
 }
@@ -89,6 +105,7 @@ const reDigits = `(re.+ (re.range "0" "9"))`
 // atoi models strconv.Atoi / ParseInt(s,10,bits): returns (value, ok) on this path.
 func (e *Exec) atoi(s StrV, bits int) (*Term, bool) {
 	tf := e.tf
+	s = e.resolveStr(s)
 	if cs, ok := s.Const(); ok {
 		v, err := strconv.ParseInt(cs, 10, bits)
 		return tf.Int(v), err == nil
@@ -390,7 +407,7 @@ func init() {
 		return e.tf.Contains(a[0].(StrV).Term(e.tf), a[1].(StrV).Term(e.tf))
 	}
 	stubs["strings.LastIndex"] = func(e *Exec, fr *Frame, fn *ssa.Function, a []Value) Value {
-		s, sub := a[0].(StrV), a[1].(StrV)
+		s, sub := e.resolveStr(a[0].(StrV)), a[1].(StrV)
 		if cs, ok := s.Const(); ok {
 			if cu, ok := sub.Const(); ok {
 				return e.tf.Int(int64(strings.LastIndex(cs, cu)))
